@@ -3,13 +3,13 @@ LEAN_MODULES = ["Sif.Props.C07"]
 EXTRACT = [{"group": "bridge", "passes": ["bridgefacts"]}]
 FAMILIES = [
     {"name": "bridge_peg", "family": "bridge_peg", "group": "bridge", "driver": "drv_bridge",
-     "n_quick": 300, "n_thorough": 1500, "seeds_thorough": 3},
+     "n_quick": 200, "n_thorough": 1500, "seeds_thorough": 3},
 ]
 RULE = ("bridge_peg: L1 histories of lock / burn / claim / pause / blacklist / fee-receiver / rescue / whitelist messages on the real keepers: "
         "fee receiver unset and set (also set to the sender, to module accounts), ceth burned with the receiver unset, ceth locked with the receiver "
         "unset (duplicate-denomination panic), fees below / at / above the floor, amounts above the balance, invalid denominations, chain ids 0 and "
-        "negative, receivers in five spellings (EIP-55, lower, upper, un-prefixed, 0X) and non-addresses, blacklists with several spellings; "
-        "claim symbols differing in case only / prefixes of one another / starting with the pegged prefix (usdt USDT Usdt usd usdtx cusdt …), each minted denomination then locked and burned by its holder; 4 repetitions per history. Judged on the implementation's observations: Spec.C07.pegStep (balances, supply, exactly one event), gateOK "
+        "negative, receivers in eight spellings (EIP-55, lower, upper, un-prefixed, 0X, EIP-55 with 1 / 2 / half of its letters flipped) and non-addresses, blacklists with several spellings; "
+        "claim symbols differing in case only / prefixes of one another / starting with the pegged prefix (usdt USDT Usdt usd usdtx cusdt …), each minted denomination then locked and burned by its holder; 8 executions per history. Judged on the implementation's observations: Spec.C07.pegStep (balances, supply, exactly one event), gateOK "
         "(pause, address-level blacklist, native/pegged where pegged = in the stored list OR minted by a lock credit earlier in the history; burn of a minted token never refused as native), peggyRegOK (after a SUCCESS claim the stored list = old list + exactly the credited denomination), supplyOK (supply = genesis + credits - locks - burns per denomination after every message). "
         "non-trivial = distinct accepted message, or a gate chk with the bridge paused or the receiver listed")
 TRUSTED_BASE = [
